@@ -21,7 +21,25 @@ import (
 func (c *c11World) drawRequest() *c11Req {
 	// a planned I/O failure that has not fired yet: steer every third request towards the handler
 	// (or the writing state) it is aimed at
-	if c.faultClass != "none" && !c.fs.Fired && c.state() == c11Healthy && simrt.Draw(3) == 2 {
+	if c.persist && c.fires > 0 && c.state() == c11Healthy && simrt.Draw(3) == 2 {
+		// the file stays uncreatable: keep coming back to the requests that use it or the state around it
+		switch simrt.Draw(7) {
+		case 0:
+			return c.reqLabel()
+		case 1:
+			return c.reqWriteControlFam(7) // UNPAUSE label
+		case 2:
+			return c.reqWriteControlFam(3) // STOP
+		case 3:
+			return c.reqWriteControlFam(0) // START
+		case 4:
+			return c.reqWriteComment()
+		case 5:
+			return c.reqLengths()
+		}
+		return c.reqReadComment()
+	}
+	if c.faultClass != "none" && c.fires == 0 && c.state() == c11Healthy && simrt.Draw(3) == 2 {
 		switch {
 		case c.faultClass == "temp-file":
 			return c.reqRawBlock()
